@@ -204,9 +204,23 @@ def x_consistency():
     cs = enum_variants(rel, "Consistency", ["Any", "One", "Two", "Three", "Quorum", "All", "LocalQuorum", "EachQuorum",
                                             "LocalOne", "Serial", "LocalSerial"])
     ss = enum_variants(rel, "SerialConsistency", ["Serial", "LocalSerial"])
+    # `Consistency::is_serial` must be a `matches!` over variants; its domain is emitted with the variants' codes
+    # (C06: "the default policy never retries at serial consistency").  Anything else (a range check, ...) fails closed.
+    src = strip_comments(read(rel))
+    body = block_after(src, r"\bpub\s+fn\s+is_serial\s*\(\s*&self\s*\)\s*->\s*bool\s*\{", rel)
+    m = re.fullmatch(r"\s*matches!\(\s*self\s*,\s*((?:Consistency::\w+\s*\|\s*)*Consistency::\w+)\s*\)\s*", body)
+    if not m:
+        raise ExtractError("%s: Consistency::is_serial is not `matches!(self, Consistency::A | ...)`: `%s`" % (rel, body.strip()))
+    code = dict(cs)
+    names = [v.strip().split("::")[1] for v in m.group(1).split("|")]
+    for v in names:
+        if v not in code:
+            raise ExtractError("%s: is_serial names unknown variant %s" % (rel, v))
+    isv = [(v, code[v]) for v in names]
     return ("consistency / serial consistency codes", [rel],
             nat_defs("consistency", cs) + [table_def("consistencies", cs)] +
-            nat_defs("serialConsistency", ss) + [table_def("serialConsistencies", ss)])
+            nat_defs("serialConsistency", ss) + [table_def("serialConsistencies", ss)] +
+            [table_def("isSerialVariants", isv)])
 
 
 def x_value_markers():
